@@ -3,6 +3,7 @@
 //! (built from the model's trace) and random frames, executed in isolated workers under an
 //! address-space limit.
 use crate::corpus::Corpus;
+use crate::endpoints::Flavor;
 use crate::gen::*;
 use crate::outcome::*;
 use crate::suite::*;
@@ -300,18 +301,29 @@ fn raw_bytes(c: &Corpus, ep_label: &str, tier: Tier, seed: u64, known: &KnownFin
         sweep.sort();
         sweep.dedup();
     }
+    let whole = crate::sched::Schedule::whole();
     for bytes in &sweep {
         crate::iso::trace_case(&|| json!({"endpoint": ep_label, "frame": vcommon::hex(bytes)}));
-        let o = ep.read_only(bytes);
-        r.evals += 1;
-        r.count(&format!("header-sweep.{}", o.kind()));
-        r.distinct.insert(vcommon::fnv(bytes));
-        if let Outcome::Panic { message, location } = &o {
-            let k = format!("panic:{}", rel_location(location));
-            if let Some(s) = known_sig(known, "C03", "c03", &format!("raw:{}", ep_label), &k) {
-                *r.known_hits.entry(s).or_insert(0) += 1;
-            } else if failed.insert(k.clone()) {
-                r.fails.push((format!("c03:raw:{}:{}", ep_label, k), trunc(message, 160), json!({"endpoint": ep_label, "frame": vcommon::hex(bytes), "library": o.short()})));
+        // the six copies of the header code: plain and decrypting reader of each flavour
+        let mut outs: Vec<(&'static str, Outcome)> = vec![("sync", ep.read_only(bytes))];
+        outs.push(("tokio", ep.read_async(Flavor::Tokio, bytes, &whole)));
+        outs.push(("async-std", ep.read_async(Flavor::Astd, bytes, &whole)));
+        for (n, fl) in [("sync-encrypted", Flavor::Sync), ("tokio-encrypted", Flavor::Tokio), ("async-std-encrypted", Flavor::Astd)] {
+            if let Some(o) = ep.read_encrypted_raw(fl, bytes) {
+                outs.push((n, o));
+            }
+        }
+        for (variant, o) in outs {
+            r.evals += 1;
+            r.count(&format!("header-sweep.{}.{}", variant, o.kind()));
+            r.distinct.insert(vcommon::fnv(bytes) ^ vcommon::fnv(variant.as_bytes()));
+            if let Outcome::Panic { message, location } = &o {
+                let k = format!("panic:{}", rel_location(location));
+                if let Some(s) = known_sig(known, "C03", "c03", &format!("raw:{}", ep_label), &k) {
+                    *r.known_hits.entry(s).or_insert(0) += 1;
+                } else if failed.insert(k.clone()) {
+                    r.fails.push((format!("c03:raw:{}:{}", ep_label, k), trunc(message, 160), json!({"endpoint": ep_label, "reader": variant, "frame": vcommon::hex(bytes), "library": o.short()})));
+                }
             }
         }
     }
